@@ -1662,6 +1662,10 @@ class SymEx:
             self.effect(st, 'conv', operand=v, where=e.where(), node=e.cid, to=e.ty,
                         func=self.frames[-1].func.qualname if self.frames else None)
             return ('trunc', v)
+        if k == 'FloatingCast' and e.a.get('narrowing') and not is_num(v):
+            self.effect(st, 'fnarrow', operand=v, where=e.where(), node=e.cid, to=e.a.get('to'), frm=e.a.get('frm'),
+                        implicit=e.a.get('implicit'),
+                        func=self.frames[-1].func.qualname if self.frames else None)
         if k == 'IntegralCast' and not is_num(v):
             self.effect(st, 'narrow', operand=v, where=e.where(), node=e.cid, to=e.a.get('to'), frm=e.a.get('frm'),
                         func=self.frames[-1].func.qualname if self.frames else None)
@@ -2438,8 +2442,12 @@ class SymEx:
                     lv = self.eval_lv(st, a)
                     if lv is not None:
                         outs.append((i, lv))
+            try:
+                flv = self.eval_lv(st, args[0])
+            except AnalysisBroken:
+                flv = None
             self.effect(st, 'ucall', functor=t0, args=vals, argnodes=args[1:], where=e.where(),
-                        node=e.cid, id=uid, outs=outs)
+                        node=e.cid, id=uid, outs=outs, functor_lv=flv)
             for i, lv in outs:
                 self.write(st, lv, ('uout', uid, i))
             return ('ucall', uid, t0)
